@@ -4,6 +4,7 @@
   appends exactly the new fibers (`popRanksR`); nested populate loops are such a transformer.
 -/
 import FtProofs.Lemmas.RankLemmas
+import FtProofs.C05
 set_option linter.unusedSectionVars false
 set_option linter.unusedSimpArgs false
 namespace Ft
@@ -47,7 +48,7 @@ theorem pathsAt_nodup : ∀ (d : Nat) (t : Tree κ ν d), WF d t → ∀ i, (pat
       exact StrictTotal.irrefl _ hab
 
 /-- a duplicate-free list that contains another one is that one plus what is new -/
-theorem grow_perm {α : Type} [DecidableEq α] (l l' : List α) (hl : l.Nodup) (hl' : l'.Nodup)
+theorem grow_perm {α : Type} [BEq α] [LawfulBEq α] (l l' : List α) (hl : l.Nodup) (hl' : l'.Nodup)
     (hsub : ∀ x ∈ l, x ∈ l') : l'.Perm (l ++ l'.filter (fun p => !l.contains p)) := by
   have hnd : (l ++ l'.filter (fun p => !l.contains p)).Nodup := by
     rw [List.nodup_append]
@@ -66,6 +67,177 @@ theorem grow_perm {α : Type} [DecidableEq α] (l l' : List α) (hl : l.Nodup) (
   · rintro (h | ⟨h, _⟩)
     · exact hsub a h
     · exact h
+
+/-- the identity transformer -/
+def idF : (d : Nat) → Tree κ ν (d + 1) → Tree κ ν (d + 1) × Outcome := fun _ f => (f, .ok)
+
+theorem atPath_idF : ∀ (d : Nat) (t : Tree κ ν (d + 1)), WF (d + 1) t → ∀ q, (atPath idF d t q).1 = t
+  | _, _, _, [] => by simp [atPath, idF]
+  | 0, _, _, _ :: _ => by simp [atPath]
+  | d + 1, (t : List (κ × Tree κ ν (d + 1))), h, c :: cs => by
+    simp only [atPath]
+    cases hl : lookup (show List (κ × Tree κ ν (d + 1)) from t) c with
+    | none => rfl
+    | some s =>
+      simp only
+      rw [atPath_idF d s (h.sub _ (lookup_mem hl)) cs]
+      exact map_key_id h.sorted hl
+
+theorem locate_wf : ∀ (d : Nat) (t : Tree κ ν (d + 1)), WF (d + 1) t → ∀ (q : List κ) (d' : Nat) (s : Tree κ ν (d' + 1)),
+    locate d t q = some ⟨d', s⟩ → WF (d' + 1) s
+  | d, t, h, [], d', s, hl => by
+    simp only [locate, Option.some.injEq] at hl
+    cases hl
+    exact h
+  | 0, _, _, _ :: _, _, _, hl => by simp [locate] at hl
+  | d + 1, (t : List (κ × Tree κ ν (d + 1))), h, c :: cs, d', s, hl => by
+    simp only [locate] at hl
+    cases hlk : lookup (show List (κ × Tree κ ν (d + 1)) from t) c with
+    | none => rw [hlk] at hl; cases hl
+    | some s0 =>
+      rw [hlk] at hl
+      exact locate_wf d s0 (h.sub _ (lookup_mem hlk)) cs d' s hl
+
+/-- what a raw walk finds at depth `i`, split into the fibers not below `q` and those below it -/
+theorem pathsAt_split (d : Nat) (t : Tree κ ν (d + 1)) (h : WF (d + 1) t) (q : List κ) (d' : Nat)
+    (s : Tree κ ν (d' + 1)) (hloc : locate d t q = some ⟨d', s⟩) (i : Nat) :
+    pathsAt (d + 1) t i ~
+      (pathsAt (d + 1) t i).filter (fun p => !properPrefix q p) ++
+      ((pathsAt (d' + 1) s (i - q.length)).filter (fun _ => decide (q.length < i))).map (q ++ ·) := by
+  have key := pathsAt_atPath (idF (κ := κ) (ν := ν)) d t h q i
+  rw [hloc, atPath_idF d t h q] at key
+  exact key
+
+/-- **growth below a fiber**: a transformer applied at the fiber reached by `q` that keeps every fiber
+    of the sub-tree it is applied to (it may add fibers) keeps the mirror, if the bookkeeping appends
+    exactly the fibers that are new -/
+theorem grow_mirror (F : (d : Nat) → Tree κ ν (d + 1) → Tree κ ν (d + 1) × Outcome)
+    (d : Nat) (t : Tree κ ν (d + 1)) (R : RankLists κ) (q : List κ) (d' : Nat) (s : Tree κ ν (d' + 1))
+    (h : WF (d + 1) t) (hm : Mirror (d + 1) t R) (hloc : locate d t q = some ⟨d', s⟩)
+    (hwf' : WF (d' + 1) (F d' s).1)
+    (hsub : ∀ j p, p ∈ pathsAt (d' + 1) s j → p ∈ pathsAt (d' + 1) (F d' s).1 j) :
+    Mirror (d + 1) (atPath F d t q).1 (popRanksR R q d' s (F d' s).1) := by
+  obtain ⟨hlen, hperm⟩ := hm
+  have hs : WF (d' + 1) s := locate_wf d t h q d' s hloc
+  refine ⟨by simp [popRanksR, hlen], ?_⟩
+  intro i hi
+  have hi' : i < R.length := hlen ▸ hi
+  have e1 : (popRanksR R q d' s (F d' s).1).getD i [] =
+      (if q.length < i then R.getD i [] ++
+          ((pathsAt (d' + 1) (F d' s).1 (i - q.length)).filter
+            (fun p => !(pathsAt (d' + 1) s (i - q.length)).contains p)).map (q ++ ·)
+       else R.getD i []) := by
+    unfold popRanksR
+    simp only [List.getD_eq_getElem?_getD, List.getElem?_mapIdx, List.getElem?_eq_getElem hi', Option.map_some,
+      Option.getD_some]
+  rw [e1]
+  have key := pathsAt_atPath F d t h q i
+  rw [hloc] at key
+  simp only at key
+  have keyId := pathsAt_split d t h q d' s hloc i
+  refine List.Perm.trans ?_ key.symm
+  by_cases hq : q.length < i
+  · simp only [hq, if_true, decide_true]
+    have e2 : ∀ l : List (List κ), l.filter (fun _ => true) = l := fun l => by simp
+    rw [e2]
+    simp only [hq, decide_true] at keyId
+    rw [e2] at keyId
+    have g := grow_perm (pathsAt (d' + 1) s (i - q.length)) (pathsAt (d' + 1) (F d' s).1 (i - q.length))
+      (pathsAt_nodup (d' + 1) s hs _) (pathsAt_nodup (d' + 1) (F d' s).1 hwf' _) (hsub _)
+    calc R.getD i [] ++ ((pathsAt (d' + 1) (F d' s).1 (i - q.length)).filter
+              (fun p => !(pathsAt (d' + 1) s (i - q.length)).contains p)).map (q ++ ·)
+        ~ ((pathsAt (d + 1) t i).filter (fun p => !properPrefix q p) ++
+            (pathsAt (d' + 1) s (i - q.length)).map (q ++ ·)) ++
+          ((pathsAt (d' + 1) (F d' s).1 (i - q.length)).filter
+              (fun p => !(pathsAt (d' + 1) s (i - q.length)).contains p)).map (q ++ ·) :=
+          (((hperm i hi).trans keyId).append_right _)
+      _ = (pathsAt (d + 1) t i).filter (fun p => !properPrefix q p) ++
+            ((pathsAt (d' + 1) s (i - q.length)) ++
+              (pathsAt (d' + 1) (F d' s).1 (i - q.length)).filter
+                (fun p => !(pathsAt (d' + 1) s (i - q.length)).contains p)).map (q ++ ·) := by
+          rw [List.map_append, List.append_assoc]
+      _ ~ (pathsAt (d + 1) t i).filter (fun p => !properPrefix q p) ++
+            (pathsAt (d' + 1) (F d' s).1 (i - q.length)).map (q ++ ·) :=
+          ((g.symm.map _).append_left _)
+  · simp only [hq, if_false, decide_false]
+    have e3 : ∀ l : List (List κ), l.filter (fun _ => false) = [] := fun l => by simp
+    rw [e3, List.map_nil, List.append_nil]
+    simp only [hq, decide_false] at keyId
+    rw [e3, List.map_nil, List.append_nil] at keyId
+    exact (hperm i hi).trans keyId
+
+/-! ### populate loops keep every fiber that was there -/
+
+/-- an interior populate loop keeps every element of the destination: untouched if the source does not
+    offer its coordinate, otherwise with the payload the body produced (an interior element that
+    existed before the loop is never removed) -/
+theorem populate_keeps {β : Type} [DecidableEq ν] (dflt : ν) (d : Nat)
+    (body : κ → Tree κ ν (d + 1) → β → Tree κ ν (d + 1))
+    (z : Tree κ ν (d + 2)) (src : Fib κ β) (hz : WF (d + 2) z) (hb : Sorted src)
+    (e : κ × Tree κ ν (d + 1)) (he : e ∈ (show List (κ × Tree κ ν (d + 1)) from z)) :
+    ∃ s', (e.1, s') ∈ (show List (κ × Tree κ ν (d + 1)) from (populate dflt (d + 1) body z src).1) ∧
+      (s' = e.2 ∨ ∃ bp, (e.1, bp) ∈ src ∧ s' = body e.1 e.2 bp) := by
+  have hl := (populate_struct (defaultTree dflt (d + 1)) (rmOf dflt (d + 1)) body
+    (show List (κ × Tree κ ν (d + 1)) from z) src hz.sorted hb).2 e.1
+  have hle : lookup (show List (κ × Tree κ ν (d + 1)) from z) e.1 = some e.2 := lookup_of_sorted_mem hz.sorted he
+  unfold popExpect at hl
+  cases hs : lookup src e.1 with
+  | none =>
+    rw [hs] at hl
+    simp only at hl
+    rw [hle] at hl
+    exact ⟨e.2, lookup_mem hl, Or.inl rfl⟩
+  | some bp =>
+    rw [hs] at hl
+    simp only [popAt, hle, Option.isNone_some, Option.getD_some] at hl
+    have hr : rmOf dflt (d + 1) false (body e.1 e.2 bp) = false := by simp [rmOf, rmFiber]
+    rw [hr] at hl
+    simp only [Bool.false_eq_true, if_false] at hl
+    exact ⟨_, lookup_mem hl, Or.inr ⟨bp, lookup_mem hs, rfl⟩⟩
+
+theorem insertIfMissing_mem {π : Type} (mk : π) (f : Fib κ π) (c : κ) (x : κ × π) (hx : x ∈ f) :
+    x ∈ insertIfMissing mk f c := by
+  unfold insertIfMissing
+  cases posLookup f c with
+  | some _ => exact hx
+  | none => exact mem_insertAt.2 (Or.inr hx)
+
+/-- nested populate loops (with bodies that recurse, skip or only touch) never lose a fiber -/
+theorem popNest_keeps_paths [DecidableEq ν] (dflt : ν) (leafF : List κ → ν → ν → ν) (inner : List κ → Inner κ) :
+    ∀ (d : Nat) (pre : List κ) (z a : Tree κ ν (d + 1)), WF (d + 1) z → WF (d + 1) a →
+      ∀ j p, p ∈ pathsAt (d + 1) z j → p ∈ pathsAt (d + 1) (popNest dflt leafF inner d pre z a) j
+  | _, _, _, _, _, _, 0, p, hp => by simpa [pathsAt] using hp
+  | 0, _, z, _, _, _, j + 1, p, hp => by
+    obtain ⟨e, _, cs, hcs, _⟩ := (mem_pathsAt_succ 0 z j p).1 hp
+    simp [pathsAt] at hcs
+  | d + 1, pre, z, a, hz, ha, j + 1, p, hp => by
+    obtain ⟨e, he, cs, hcs, rfl⟩ := (mem_pathsAt_succ (d + 1) z j p).1 hp
+    simp only [popNest]
+    obtain ⟨s', hs', hcase⟩ := populate_keeps dflt d
+      (fun c (cur : Tree κ ν (d + 1)) (av : Tree κ ν (d + 1)) =>
+        match inner (pre ++ [c]) with
+        | .skip => cur
+        | .touch c' => insertIfMissing (defaultTree dflt d) (show List (κ × Tree κ ν d) from cur) c'
+        | .recurse => popNest dflt leafF inner d (pre ++ [c]) cur av) z
+      (present dflt (d + 1) a) hz (present_sorted ha.sorted) e he
+    refine (mem_pathsAt_succ (d + 1) _ j _).2 ⟨(e.1, s'), hs', cs, ?_, rfl⟩
+    show cs ∈ pathsAt (d + 1) s' j
+    rcases hcase with rfl | ⟨bp, hbp, rfl⟩
+    · exact hcs
+    · simp only
+      cases hin : inner (pre ++ [e.1]) with
+      | skip => exact hcs
+      | touch c' =>
+        simp only
+        cases j with
+        | zero => simpa [pathsAt] using hcs
+        | succ j' =>
+          obtain ⟨x, hx, cs', hcs', rfl⟩ := (mem_pathsAt_succ d e.2 j' cs).1 hcs
+          exact (mem_pathsAt_succ d _ j' _).2 ⟨x, insertIfMissing_mem _ _ c' x hx, cs', hcs', rfl⟩
+      | recurse =>
+        simp only
+        exact popNest_keeps_paths dflt leafF inner d (pre ++ [e.1]) e.2 bp (hz.sub e he)
+          (ha.sub _ (mem_present.1 hbp).1) j cs hcs
 
 end
 end Ft
